@@ -399,8 +399,11 @@ def isTauPc (s : State) (t : Tid) : Bool :=
   | .fJoin => s.joinRest.isEmpty
   | _ => false
 
-/-- the memory accesses a thread performs between two library calls happen right after the first
-one (nothing can preempt the cooperative scheduler of the harness there) -/
+/-- Internal steps of thread `t`, as many as are pending (at most `fuel`).  Used by trace acceptance:
+the harness marks the place where a thread first touches the pool object after a scheduling point
+(`T<i> @`); everything the thread does to the pool before its next library call happens there,
+atomically (the cooperative scheduler cannot preempt it in between), so that is where its pending
+internal steps fire.  See `Driver.Thpool`. -/
 def runTaus (s : State) (t : Tid) : Nat → State
   | 0 => s
   | fuel + 1 => if isTauPc s t then
